@@ -127,7 +127,7 @@ where
                 let mod_name = namespace.rust_mod_name.as_str();
                 writeln!(writer, "    pub {field_name}: Option<{mod_name}::{rust_type}>,",)?;
             } else {
-                writeln!(writer, "    pub {field_name}: Option<{rust_type}>",)?;
+                writeln!(writer, "    pub {field_name}: Option<{rust_type}>,",)?;
             }
         }
         writeln!(writer, "}}")?;
